@@ -1,7 +1,7 @@
 """Render family: stages for C15, C02, C03, C04."""
 import json, os, re
 from vlib import *
-from parserfam import stage_gen_trees, stage_mc_parser
+from parserfam import stage_gen_trees, stage_mc_parser, stage_groups, stage_judge_trees
 
 
 def stage_fold_groups(run, casefile, name="fold_groups"):
@@ -35,3 +35,45 @@ def replay_fold(run, rp):
 
 
 REPLAYERS["foldtext"] = replay_fold
+
+
+# ---- SQL properties --------------------------------------------------------------------------------
+GENSQL_CFG = """SPECIFICATION Spec
+CONSTANTS
+  OutFile = "cases.ndjson"
+  Tier = "%s"
+POSTCONDITION Post
+CHECK_DEADLOCK FALSE
+"""
+
+
+def stage_gen_sql(run, module="GenSql", name="gen_sql"):
+    d = run.sub(name)
+    out, rc, secs = run.tlc(d, module, GENSQL_CFG % run.tier, workers=1, timeout=1800, seed=run.seed, xss=True)
+    m = re.search(r'"GENERATED (.*)"', out)
+    if not m:
+        raise Broken("%s failed: %s" % (module, run.tlc_error(out) or out[-600:]))
+    g = json.loads(json.loads('"' + m.group(1) + '"'))
+    run.stage(name, secs=round(secs, 1), **g)
+    return os.path.join(d, "cases.ndjson"), g
+
+
+def stage_sql_cases(run, casefile, name="sql_cases"):
+    res = os.path.join(run.work, name + ".ndjson")
+    s = run.harness(["sql-cases", "-in", casefile, "-out", res])
+    run.stage(name, **s)
+    run.evaluations += s.get("calls", 0)
+    return res
+
+
+def stage_judge_sql(run, resfile, prop, name="judge_sql", keep=False):
+    for line in first_lines(resfile, 200)[-2:]:
+        c = json.loads(line)
+        run.add_sample({"kind": "query rendered and read back by PostgreSQL's parser", "q": c["q"], "inline_sql": c["inline"]["text"],
+                        "param_sql": c["param"]["text"], "params": [p["text"] for p in c["param"]["params"]], "ast": c["inline"]["read"]["ast"]})
+    j, vfiles, d = run.judge(name, "JudgeSql", prop, resfile, unit=400, keep=keep)
+    run.traces += j["judged"]
+    run.distinct += j["judged"]
+    run.stage(name, prop=prop, cases_judged=j["judged"], failures=j["failures"], known=j["known"], secs=j["secs"], jvms=j["jvms"])
+    for vf in vfiles:
+        run.add_verdicts(vf, lambda v: {"pipeline": "sqlcase", "casefile": None, "q": v.get("q"), "prop": prop})
